@@ -3,6 +3,8 @@ package eng
 import (
 	"encoding/json"
 	"fmt"
+	"go/ast"
+	"go/parser"
 	"go/token"
 	"go/types"
 	"os"
@@ -14,6 +16,106 @@ import (
 )
 
 var rootPkg = []string{modPath}
+
+// genSynthetic runs the freshly built plugin on the two synthetic services (gentool synth) and returns
+// the generated files as an overlay at internal/zzsynth*.
+func genSynthetic() (map[string][]byte, bool, string) {
+	sdir := filepath.Join(curGen.Tmp, "synth")
+	o, _ := runCmd(curGen.Tmp, curGen.gentool, "synth", curGen.plugin, sdir)
+	var r struct {
+		ExitError bool     `json:"exit_error"`
+		RespErr   string   `json:"response_error"`
+		Stderr    string   `json:"stderr"`
+		Files     []string `json:"files"`
+	}
+	json.Unmarshal([]byte(o), &r)
+	ok := !r.ExitError && r.RespErr == "" && len(r.Files) == 2
+	ov := map[string][]byte{}
+	if ok {
+		for _, fn := range r.Files {
+			b, _ := os.ReadFile(filepath.Join(sdir, fn))
+			ov[filepath.Join(RepoDir, "internal", fn)] = b
+		}
+	}
+	return ov, ok, o
+}
+
+// SyntheticStubsPassPerNodeFunction (bounded, structural): in the code generated for the synthetic
+// services - which spell per_node_arg out as true, omit it, and spell it out as false - every client
+// stub that ACCEPTS a per-node function hands it to the runtime (assigns PerNodeArgFn with a closure
+// calling it), and no stub sets PerNodeArgFn without accepting one. Whatever the generator makes of an
+// option, signature and body must agree: a function the caller passes is not silently dropped.
+func SyntheticStubsPassPerNodeFunction(prop string) *FuncResult {
+	res := &FuncResult{Name: "synthetic-stubs (bounded)", HasContract: true}
+	ov, ok, o := genSynthetic()
+	if !ok {
+		structOblig(res, "gen/synthetic/per-node-function-passed-on", false, "the synthetic services were not generated: "+truncate(o, 400), prop)
+		return res
+	}
+	fset := token.NewFileSet()
+	stubs, withF := 0, 0
+	for _, path := range sortedKeys(ov) {
+		f, err := parser.ParseFile(fset, path, ov[path], 0)
+		if err != nil {
+			structOblig(res, "gen/synthetic/per-node-function-passed-on", false, "generated file does not parse: "+err.Error(), prop)
+			return res
+		}
+		for _, d := range f.Decls {
+			fd, isFn := d.(*ast.FuncDecl)
+			if !isFn || fd.Recv == nil || fd.Body == nil || len(fd.Recv.List) != 1 {
+				continue
+			}
+			star, isPtr := fd.Recv.List[0].Type.(*ast.StarExpr)
+			if !isPtr {
+				continue
+			}
+			if id, isID := star.X.(*ast.Ident); !isID || id.Name != "Configuration" {
+				continue
+			}
+			stubs++
+			var fparam string
+			for _, p := range fd.Type.Params.List {
+				if _, isFunc := p.Type.(*ast.FuncType); isFunc && len(p.Names) == 1 {
+					fparam = p.Names[0].Name
+				}
+			}
+			sets, calls := false, false
+			ast.Inspect(fd.Body, func(n ast.Node) bool {
+				switch u := n.(type) {
+				case *ast.AssignStmt:
+					for _, l := range u.Lhs {
+						if se, isSel := l.(*ast.SelectorExpr); isSel && se.Sel.Name == "PerNodeArgFn" {
+							sets = true
+						}
+					}
+				case *ast.KeyValueExpr:
+					if k, isID := u.Key.(*ast.Ident); isID && k.Name == "PerNodeArgFn" {
+						sets = true
+					}
+				case *ast.CallExpr:
+					if id, isID := u.Fun.(*ast.Ident); isID && fparam != "" && id.Name == fparam {
+						calls = true
+					}
+				}
+				return true
+			})
+			if fparam != "" {
+				withF++
+			}
+			name := fmt.Sprintf("gen/synthetic/per-node-function-passed-on[%s.%s]", filepath.Base(filepath.Dir(path)), fd.Name.Name)
+			switch {
+			case fparam != "" && !(sets && calls):
+				structOblig(res, name, false, "the generated stub accepts a per-node function ("+fparam+") and never hands it to the runtime: every node gets the unmodified request", prop)
+			case fparam == "" && sets:
+				structOblig(res, name, false, "the generated stub sets PerNodeArgFn without accepting a per-node function", prop)
+			default:
+				structOblig(res, name, true, "", prop)
+			}
+		}
+	}
+	structOblig(res, "gen/synthetic/per-node-function-passed-on/scan-complete", stubs >= 10 && withF >= 4, fmt.Sprintf("%d Configuration stubs in the synthetic output, %d with a per-node function", stubs, withF), prop)
+	return res
+}
 
 func modeScan(id string) func(s *Session, tier string) []*FuncResult {
 	return func(s *Session, tier string) []*FuncResult { return []*FuncResult{s.ScanFieldModes(id)} }
@@ -273,24 +375,10 @@ var plans = map[string]*propertyPlan{
 				// and a synthetic service built in memory: every call type, with and without per-node
 				// arguments, async, server stream - all request and response messages IMPORTED from
 				// other packages, so every message type in the output must be qualified
-				sdir := filepath.Join(curGen.Tmp, "synth")
-				o, _ := runCmd(curGen.Tmp, curGen.gentool, "synth", curGen.plugin, sdir)
-				var r struct {
-					ExitError bool     `json:"exit_error"`
-					RespErr   string   `json:"response_error"`
-					Stderr    string   `json:"stderr"`
-					Files     []string `json:"files"`
-				}
-				json.Unmarshal([]byte(o), &r)
-				okGen := !r.ExitError && r.RespErr == "" && len(r.Files) == 2
+				ov, okGen, o := genSynthetic()
 				structOblig(res, "gen/accepts[synthetic service with imported message types]", okGen, truncate(o, 400), "C16")
 				if okGen {
 					// two files generated in one plugin run (same method names, different call types)
-					ov := map[string][]byte{}
-					for _, fn := range r.Files {
-						b, _ := os.ReadFile(filepath.Join(sdir, fn))
-						ov[filepath.Join(RepoDir, "internal", fn)] = b
-					}
 					_, serr := Load(RepoDir, []string{modPath + "/internal/zzsynth", modPath + "/internal/zzsynth2"}, ov)
 					d := "the code generated for the two synthetic services type-checks (packages overlaid at internal/zzsynth*, nothing written to the repository)"
 					if serr != nil {
@@ -311,11 +399,12 @@ var plans = map[string]*propertyPlan{
 			if curGen == nil {
 				return nil
 			}
-			return append([]*FuncResult{curGen.ScanServers(s, "C17")}, curGen.VerifyAccessors(s, "C17")...)
+			out := append([]*FuncResult{curGen.ScanServers(s, "C17")}, curGen.VerifyAccessors(s, "C17")...)
+			return append(out, SyntheticStubsPassPerNodeFunction("C17"))
 		},
 		Explain: "On every run the plugin is built from the working tree and run on CodeGeneratorRequests assembled from the descriptors the repository's packages register (no protoc); its output replaces the committed *_gorums.pb.go as a go/packages overlay. Part 1 (binding) runs on descriptors whose methods are renamed in memory to lower_snake_case - every generated Go identifier stays as it is, but every wire name now differs from all of them: every regenerated client stub is symbolically executed against a schema contract rendered from the descriptor (not from the templates): it calls exactly the runtime entry of its call type, once, with Method == the method's full name, the caller's request and context, per-node adapter iff per_node_arg, quorum function set, ServerStream as declared, options passed through; every Register<S>Server registers each method exactly once under its full name with a handler that calls that implementation method once, releases on return and replies per its shape. Part 2 (currency): regenerated output and a fresh bundle equal the committed files, comments aside."},
-	"C18": {ID: "C18", Level: "proof", Pkgs: rootPkg,
-		Explain: "No residue: a non-streaming router is deleted in the critical section that answers it (routeResponse, cancelPendingMsgs - which leaves no router at all); enqueue registers nothing for a nil reply channel; sendMsg's confirmation removes the one-way router on every path; sendMsg closes its watcher's done channel exactly once on every path after starting it; the handler goroutines of async and correctable calls leave their loop exactly under the completion conditions and close/complete exactly once."},
+	"C18": {ID: "C18", Level: "proof", Pkgs: rootPkg, Extra: modeScan("C18"),
+		Explain: "No residue: the client's long-lived objects grow only in the declared containers (closed-world scan over every function of the package: channel.responseRouters; RawManager.nodes/lookup per node; nothing in RawNode), and for those: a non-streaming router is deleted in the critical section that answers it (routeResponse, cancelPendingMsgs - which leaves no router at all); enqueue registers nothing for a nil reply channel; sendMsg's confirmation removes the one-way router on every path; sendMsg closes its watcher's done channel exactly once on every path after starting it; the handler goroutines of async and correctable calls leave their loop exactly under the completion conditions and close/complete exactly once."},
 	"C19": {ID: "C19", Level: "proof", Pkgs: rootPkg, Extra: modeScan("C19"),
 		Explain: "Less is proved equal to the lexicographic combination of its keys (loop invariant over a recursive spec function); each provided key's real code is inlined into four strict-weak-order lemmas; Sort/Swap/Len contracts tie sort.Sort's trusted contract to the node slice."},
 }
